@@ -28,6 +28,10 @@ type c21Cfg struct {
 	FinishMode  string `json:"finish"`   // seq | racing | verify-racing (the engine's Verify of a new block overlaps the finish)
 	RaceTrigger int    `json:"trigger"`  // racing: 1 = the rejections run inside a chosen chain callback of FinishStateSync, 0 = unsynchronised
 	Finalize    bool   `json:"finalize"` // decide every invalid processing block before the end
+	// SplitRejects (seq only): the engine accepts a block, performs only a prefix
+	// of the transitive rejections it owes (parents first), calls FinishStateSync
+	// from its own thread and performs the remaining rejections afterwards
+	SplitRejects bool `json:"split_rejects,omitempty"`
 }
 
 // ------------------------------------------------------------ sync start ----
@@ -359,14 +363,24 @@ func (e *engine) checkLastAccepted(when string) {
 // checkHealth: unhealthy while a processing block that failed re-verification
 // is undecided; healthy once every block that failed (or was skipped because
 // an ancestor failed) is rejected. In between the statement is silent.
+//
+// One more case is asserted: a block that was still processing when
+// FinishStateSync ran from the engine thread although the engine had already
+// rejected its parent (the finish came between the transitive rejections that
+// follow an accept) cannot be re-verified at all - it has no parent to be
+// verified on - so it failed re-verification and the node is unhealthy until
+// the engine delivers the outstanding rejection.
 func (e *engine) checkHealth(when string) {
-	own, all := 0, 0
+	own, orph, all := 0, 0, 0
 	for _, n := range e.nodes {
 		if n.st == stProcessing && n.vacuous {
 			if n.failedOwn {
 				own++
 			}
-			if n.failedOwn || n.failedAnc {
+			if n.orphaned {
+				orph++
+			}
+			if n.failedOwn || n.failedAnc || n.orphaned {
 				all++
 			}
 		}
@@ -376,8 +390,12 @@ func (e *engine) checkHealth(when string) {
 	switch {
 	case own > 0 && err == nil:
 		e.cc.violation("health-healthy-with-unresolved", "%s: HealthCheck is healthy although %d processing block(s) that failed re-verification are undecided", when, own)
+	case orph > 0 && err == nil:
+		e.cc.violation("health-healthy-with-orphaned-processing", "%s: HealthCheck is healthy although %d processing block(s) whose ancestor the engine had rejected before FinishStateSync (so they could not be re-verified) are undecided", when, orph)
 	case all == 0 && err != nil:
 		e.cc.violation("health-unhealthy-after-resolved", "%s: HealthCheck still fails (%v) although every processing block that failed re-verification has been rejected", when, err)
+	case own == 0 && orph > 0:
+		e.stat["health_unhealthy_observed_orphaned_only"]++
 	case own > 0:
 		e.stat["health_unhealthy_observed"]++
 	case all == 0:
@@ -702,6 +720,144 @@ func (e *engine) raceFinish(cfg c21Cfg, targetIdx int, x *node, call func()) fin
 	return plan
 }
 
+// splitRejects realises, on the engine thread alone, the history
+//
+//	engine:  Accept(x)  Reject(owed[:k])  FinishStateSync(target)  Reject(owed[k:])
+//
+// snowman rejects the subtrees that conflict with an accepted block one block
+// at a time, parents before children; the syncer's completion may be delivered
+// between two of these calls. prepareSplit builds the subtrees, accepts x and
+// performs the first k rejections; the caller then runs the sequential finish
+// and completeSplit delivers the rest. A block that is still processing at the
+// finish while its parent is already rejected (P rejected, child C owed) can
+// not be re-verified: the node is unhealthy until Reject(C) arrives, and
+// healthy afterwards unless other failed blocks are undecided.
+type splitRejects struct {
+	x        *node
+	owed     []*node
+	k        int
+	orphaned int // owed[k:] blocks whose parent is in owed[:k]
+}
+
+func (e *engine) prepareSplit() *splitRejects {
+	// conflicting subtrees under the tip: P -> C (-> D ...), at times with a second child
+	for i, k := 0, 1+e.rng.IntN(2); i < k && !e.dead; i++ {
+		par := e.parseNew(e.last, e.rng.IntN(4) == 0, 0)
+		if par == nil {
+			return nil
+		}
+		e.verify(par)
+		for d, depth := 0, 1+e.rng.IntN(3); d < depth && !e.dead; d++ {
+			c := e.parseNew(par, e.rng.IntN(4) == 0, 0)
+			if c == nil {
+				return nil
+			}
+			e.verify(c)
+			if !e.dead && e.rng.IntN(3) == 0 {
+				if c2 := e.parseNew(par, e.rng.IntN(4) == 0, 0); c2 != nil {
+					e.verify(c2)
+				}
+			}
+			par = c
+		}
+	}
+	if e.dead {
+		return nil
+	}
+	// the block consensus accepts, often with processing descendants the finish re-verifies
+	x := e.parseNew(e.last, false, 0)
+	if x == nil {
+		return nil
+	}
+	e.verify(x)
+	for d, par, depth := 0, x, e.rng.IntN(3); d < depth && !e.dead; d++ {
+		c := e.parseNew(par, e.rng.IntN(4) == 0, 0)
+		if c == nil {
+			return nil
+		}
+		e.verify(c)
+		par = c
+	}
+	if e.dead || x.st != stProcessing {
+		return nil
+	}
+	old := e.last
+	e.acceptOnly(x)
+	if e.dead {
+		return nil
+	}
+	sp := &splitRejects{x: x}
+	// the rejections the engine owes: siblings' subtrees, parents before children, siblings in random order
+	queue := append([]*node(nil), old.children...)
+	e.rng.Shuffle(len(queue), func(i, j int) { queue[i], queue[j] = queue[j], queue[i] })
+	for len(queue) > 0 {
+		s := queue[0]
+		queue = queue[1:]
+		if s == x || s.st != stProcessing {
+			continue
+		}
+		sp.owed = append(sp.owed, s)
+		queue = append(queue, s.children...)
+	}
+	// mostly a proper prefix, so that the finish falls between the rejections
+	if n := len(sp.owed); n > 1 && e.rng.IntN(100) < 80 {
+		sp.k = 1 + e.rng.IntN(n-1)
+	} else {
+		sp.k = e.rng.IntN(n + 1)
+	}
+	e.op('f', "split rejections: %d owed after accept of %s, %d before FinishStateSync", len(sp.owed), x.b, sp.k)
+	early := map[*node]bool{}
+	for _, s := range sp.owed[:sp.k] {
+		early[s] = true
+		e.reject(s)
+		if e.dead {
+			return nil
+		}
+	}
+	for _, s := range sp.owed[sp.k:] {
+		if early[s.parent] {
+			s.orphaned = true
+			sp.orphaned++
+		}
+	}
+	e.stat["split_rejects_cases"]++
+	e.stat["split_rejects_before_finish"] += sp.k
+	e.stat["split_rejects_after_finish"] += len(sp.owed) - sp.k
+	if sp.orphaned > 0 {
+		e.stat["finish_between_transitive_rejections"]++
+		e.stat["processing_with_rejected_parent_at_finish"] += sp.orphaned
+	}
+	return sp
+}
+
+// completeSplit delivers the rejections left over after the finish and judges
+// the health after each of them (checkHealth: unhealthy while a block whose
+// parent was rejected before the finish is undecided, healthy once nothing
+// that failed re-verification is left).
+func (e *engine) completeSplit(sp *splitRejects) {
+	for _, s := range sp.owed[sp.k:] {
+		e.reject(s)
+		if e.dead {
+			return
+		}
+		e.checkHealth("after a transitive rejection delivered after FinishStateSync")
+	}
+	if sp.orphaned > 0 {
+		left := 0
+		for _, n := range e.nodes {
+			if n.st == stProcessing && n.vacuous && (n.failedOwn || n.failedAnc || n.orphaned) {
+				left++
+			}
+		}
+		if left == 0 {
+			e.stat["finish_between_transitive_rejections_healthy_asserted_at_once"]++
+		} else {
+			e.stat["finish_between_transitive_rejections_other_invalid_left"]++
+		}
+	}
+	e.repairPref()
+}
+
 // acceptOnly issues Accept without the rejections that normally follow.
 func (e *engine) acceptOnly(n *node) {
 	e.op('a', "accept %s (rejections deferred)", n.b)
@@ -784,6 +940,8 @@ func runC21Case(t testing.TB, r *kit.Run, idx int, seed [2]uint64) c20Result {
 		cfg.RaceTrigger = min(rng.IntN(5), 1)
 	} else if rng.IntN(100) < 30 {
 		cfg.FinishMode = "verify-racing"
+	} else if rng.IntN(100) < 50 {
+		cfg.SplitRejects = true
 	}
 	cc := &caseCtx{r: r, prop: "C21", wit: caseWitness{Case: idx, Seed: seed, Cfg: cfg}}
 	genesis := makeBlk(ids.Empty, 0, 1_000, uint64(idx), false, 0)
@@ -852,7 +1010,16 @@ func runC21Case(t testing.TB, r *kit.Run, idx int, seed [2]uint64) c20Result {
 				e.stat["race_no_candidate"]++
 			}
 		}
-		e.finish(cfg, racing)
+		var split *splitRejects
+		if cfg.SplitRejects {
+			split = e.prepareSplit()
+		}
+		if !e.dead {
+			e.finish(cfg, racing)
+		}
+		if split != nil && !e.dead {
+			e.completeSplit(split)
+		}
 	}
 	for s := 0; s < cfg.PostSteps && !e.dead; s++ {
 		e.stepC20()
